@@ -1005,8 +1005,8 @@ def ref_apply(a, ev, w: World):
         if kd != "Text":
           raise Unmodelled(dst)
         a["attrs"][dst]["text"] = a["attrs"][src]["text"]
-      elif src == dst and ks not in ("Br", "Region"):
-        pass
+      elif src == dst:
+        pass      # copying an element onto itself changes nothing (all copy_to variants return early)
       else:
         fields = {"Br": ("id", "lang", "space"), "Region": ("lang", "space", "begin", "end")}.get(ks, ("begin", "end", "id", "lang", "space"))
         if kd != "Text":
